@@ -235,6 +235,40 @@ pub fn case_parse(cx: &mut Ctx, input: &str) {
     }
 }
 
+/// the iterator after `k` calls of `next()`: to_cow / Cow::from / to_string / collect must all be
+/// what is left of the character-by-character form
+pub fn case_cowk(cx: &mut Ctx, k: usize, s: &str) {
+    let line = format!("LF cowk {} {}", k, hex(s.as_bytes()));
+    let r = guarded(|| {
+        let full: String = Unquote::new(s).collect();
+        let mut u = Unquote::new(s);
+        for _ in 0..k {
+            let _ = u.next();
+        }
+        let a = u.to_string();
+        let b = u.to_cow().to_string();
+        let b2 = std::borrow::Cow::<str>::from(u.clone()).to_string();
+        let c: String = u.clone().collect();
+        (full, a, b, b2, c, u.is_quoted())
+    });
+    match r {
+        None => {
+            cx.case(&line, "panic");
+            cx.oracle_fail("C17", &line, "unquoting panicked");
+        }
+        Some((full, a, b, b2, c, q)) => {
+            cx.case(&line, &format!("{} {} {}", hex(a.as_bytes()), hex(b.as_bytes()), q as u8));
+            cx.nontrivial(&line);
+            let want: String = full.chars().skip(k).collect();
+            if a != want || c != want {
+                cx.oracle_fail("C17", &line, &format!("after {} next() calls the iterator still yields {:?} / {:?} instead of {:?}", k, a, c, want));
+            } else if b != want || b2 != want {
+                cx.oracle_fail("C17", &line, &format!("after {} next() calls to_cow gives {:?} (Cow::from {:?}) but the iterator still yields {:?}", k, b, b2, want));
+            }
+        }
+    }
+}
+
 pub fn case_cow(cx: &mut Ctx, s: &str) {
     let line = format!("LF cow {}", hex(s.as_bytes()));
     let r = guarded(|| {
@@ -499,6 +533,15 @@ pub fn run(cx: &mut Ctx) {
     all_strings(&['"', '\\', 'a', '\u{e9}', ';'], if thorough { 7 } else { 6 }, &mut |s| vals.push(s.to_string()));
     for s in &vals {
         case_cow(cx, s);
+    }
+    // partially consumed iterators: every string up to length 5 (6 thorough) x every number of next() calls
+    for s in &vals {
+        let n = s.chars().count();
+        if n <= (if thorough { 6 } else { 5 }) {
+            for k in 0..=n + 1 {
+                case_cowk(cx, k, s);
+            }
+        }
     }
     cx.exhaustive.push(format!("link parser on every string of length <= {} over {{< > ; , \" \\ = space a e-acute}}; both unquoting paths on every string of length <= {} over {{\" \\ a e-acute ;}}", maxlen, if thorough { 7 } else { 6 }));
     if !thorough {
